@@ -67,13 +67,32 @@ func verifTimerOf(t *time.Timer) *verifTimer {
 	return verifTimers[1]
 }
 
+// duration oracle (sequential deadline harnesses): when verifTimerChk is set, every arming of
+// a timer must use the effective timeout: deadline - now when a deadline is set, else the
+// configured timeout
+var verifTimerChk string
+var verifTimerDl, verifTimerTo int64
+
+func verifTimerCheckDur(d time.Duration) {
+	if verifTimerChk == "" {
+		return
+	}
+	if verifTimerDl > 0 {
+		verifAssert(int64(d) == verifTimerDl-verifClock, verifTimerChk+"/timer-armed-with-wrong-duration")
+	} else {
+		verifAssert(int64(d) == verifTimerTo, verifTimerChk+"/timer-armed-with-wrong-duration")
+	}
+}
+
 func verifNewTimer(d time.Duration) *time.Timer {
+	verifTimerCheckDur(d)
 	t := verifMakeTimer()
 	atomic.StoreInt32(&verifTimerOf(t).armed, 1)
 	return t
 }
 
 func verifTimerReset(t *time.Timer, d time.Duration) bool {
+	verifTimerCheckDur(d)
 	return atomic.SwapInt32(&verifTimerOf(t).armed, 1) == 1
 }
 
@@ -262,16 +281,25 @@ func verifHarness_C07_deadline(fdconn int) {
 	n := verifNondetInt("n")
 	verifAssume(n >= 1)
 	verifAssume(n <= 8)
+	verifTimerChk, verifTimerDl, verifTimerTo = "C07", 0, 0
+	if verifNondetBool("existing.timer") {
+		c.readTimer = verifMakeTimer()
+	}
 	if verifNondetBool("use.deadline") {
 		dl := verifNondetInt64("deadline")
 		verifAssume(dl >= 1)
 		verifAssume(dl <= 1<<41)
 		c.readDeadline = dl
+		verifTimerDl = dl
+		if verifNondetBool("timeout.too") {
+			c.readTimeout = time.Second
+		}
 	} else {
 		to := verifNondetInt64("timeout")
 		verifAssume(to >= 0)
 		verifAssume(to <= 1<<41)
 		c.readTimeout = time.Duration(to)
+		verifTimerTo = to
 	}
 	verifReach("before-read")
 	err := c.Skip(n)
